@@ -6,3 +6,5 @@ INVARIANT Balanced
 INVARIANT ConcatIsIdentity
 INVARIANT EmitPartition
 CHECK_DEADLOCK FALSE
+INVARIANT ClosedForm
+INVARIANT DivModLaw
